@@ -295,6 +295,10 @@ def main():
         parser.print_help()
         parser.exit(status=1)
 
+    if args.interval[1] > 2 ** 31:
+        # BIP44 -> address index is not hardened
+        parser.error("Address index has to be lower than {}".format(2 ** 31))
+
     data = wallet.generate(account=args.account, interval=args.interval)
     if args.paranoia:
         data = paranoia_mode(data=data)
